@@ -81,6 +81,12 @@ pub fn menu() -> Vec<Op> {
             }));
         }
     }
+    // dependencies whose names collide with the ones the builder generates itself (the package's own name, rpmlib features) but differ in version or flags
+    for (k, ctor, name, ver) in [("provides", "eq", "pkg", "9:9.9-9"), ("provides", "any", "pkg", ""), ("provides", "any", "pkg(noarch)", ""), ("provides", "less", "pkg(noarch)", "0"), ("requires", "rpmlib", "CompressedFileNames", "9.9-9"), ("requires", "rpmlib", "PayloadIsZstd", "0"), ("requires", "any", "rpmlib(FileDigests)", "")] {
+        m.push(op(format!("{}({} {} {})", k, ctor, name, ver), move |s| {
+            s.deps.entry(k).or_default().push(DepSpec { ctor, name: name.to_string(), version: ver.to_string() });
+        }));
+    }
     // every remaining constructor once, as a requirement
     for (ctor, name, ver) in [("eq", "dep-eq", "2.0"), ("less_eq", "dep-le", "0:1~rc1"), ("greater", "dep-gt", "3^post"), ("script_pre", "/bin/pre", ""), ("script_post", "/bin/post", ""), ("script_preun", "/bin/preun", ""), ("script_postun", "/bin/postun", ""), ("rpmlib", "CustomFeature", "1.0-1"), ("config", "cfgpkg", "1.0-1")] {
         m.push(op(format!("requires({} {} {})", ctor, name, ver), move |s| {
@@ -114,6 +120,14 @@ pub fn menu() -> Vec<Op> {
         ("regular 04755", ModeSpec::Regular(0o4755), None),
         ("dir 0750", ModeSpec::Dir(0o750), None),
         ("symlink 0777", ModeSpec::Symlink(0o777), Some("../target")),
+        // special permission bits taken over from the source file
+        ("inherit 04755", ModeSpec::Inherit(0o4755), None),
+        ("inherit 02750", ModeSpec::Inherit(0o2750), None),
+        ("inherit 01777", ModeSpec::Inherit(0o1777), None),
+        // a link target on entries whose mode is not that of a symbolic link: mode and target are independent values
+        ("regular 0644 with a link target", ModeSpec::Regular(0o644), Some("elsewhere")),
+        ("dir 0755 with a link target", ModeSpec::Dir(0o755), Some("x/y")),
+        ("inherit 0640 with a link target", ModeSpec::Inherit(0o640), Some("/abs")),
     ] {
         let mut f = base_file();
         f.dest = format!("/m/{}", n.replace(' ', "-"));
@@ -142,6 +156,20 @@ pub fn menu() -> Vec<Op> {
         f.dest = "/c/caps".into();
         f.caps = Some("cap_chown,cap_kill=ep".into());
         fops.push(("caps".into(), f));
+        // capabilities on entries that are not regular files
+        let mut d = base_file();
+        d.dest = "/c/capdir".into();
+        d.mode = ModeSpec::Dir(0o755);
+        d.content = Content::Bytes(vec![]);
+        d.caps = Some("cap_net_admin=p".into());
+        fops.push(("caps on a directory".into(), d));
+        let mut l = base_file();
+        l.dest = "/c/caplink".into();
+        l.mode = ModeSpec::Symlink(0o777);
+        l.symlink = Some("caps".into());
+        l.content = Content::Bytes(vec![]);
+        l.caps = Some("=".into());
+        fops.push(("caps on a symbolic link".into(), l));
     }
     for (n, c) in [("empty", Content::Bytes(vec![])), ("1 byte", Content::Bytes(vec![0xff])), ("4097 bytes", Content::Noise(4097))] {
         let mut f = base_file();
